@@ -51,7 +51,7 @@ class C06(PureCheck):
             for y in (small if tier == "quick" else addpool[:300]):
                 yield {"op": "add", "x": F(x), "y": F(y)}
         for x in addpool:
-            for t in ([], [97], [98, 97]):
+            for t in ([], [97], [98, 97], [27, 91, 51, 50, 109, 120], [155, 49, 109, 97], [27]):   # the last three: a plain str may hold ESC / CSI characters
                 yield {"op": "add", "x": F(x), "y": S(t)}
                 yield {"op": "add", "x": S(t), "y": F(x)}
                 yield {"op": "add", "x": F(x), "y": S(t), "aug": 1}      # alias = x; alias += "..."
